@@ -12,6 +12,7 @@ B  code -> spec: random call sequences on real instances (vectors, tensors in
 """
 import itertools
 import json
+import os
 import random
 import warnings
 
@@ -85,6 +86,18 @@ def no_stats_rule(run, tier, rng):
                     others = [sh[d] for d in range(len(sh)) if d != axis % len(sh)]
                     single = all(o == 1 for o in others)
                     s = post.Standardize(norm_var=norm_var)
+                    if dt == np.float64 and off == 1000:
+                        # "without statistics" is also an instance loaded from a file that holds a count of zero (an all-zero
+                        # template of the right width)
+                        import tempfile
+                        with tempfile.TemporaryDirectory(prefix="verif_c16_tpl_") as tdir:
+                            tp = os.path.join(tdir, "template.npy" if axis % 2 else "template.bin")
+                            if tp.endswith(".npy"):
+                                np.save(tp, np.zeros((2, sh[axis] + 1)))
+                                s = post.Standardize(tp, norm_var=norm_var)
+                            else:
+                                np.zeros((2, sh[axis] + 1)).tofile(tp)
+                                s = post.Standardize(tp, norm_var=norm_var, force_as="file")
                     run.evaluations += 1
                     with warnings.catch_warnings():
                         warnings.simplefilter("ignore")
@@ -111,6 +124,25 @@ def no_stats_rule(run, tier, rng):
                                        "norm_var": norm_var, "dtype": str(np.dtype(dt))})
                     if not np.array_equal(x, keep):
                         run.violation({"kind": "apply_modified_input", "shape": list(sh)})
+    # very many vectors in ONE accumulate call (a concatenated corpus): every one of them counts, like the same data in pieces
+    for (nvec, D, axis) in ((32768 + 5, 2, -1), (65536 + 3, 1, 0), (70001, 2, 1)):
+        data = nprng.randn(nvec, D) * 3 + np.arange(D) * 10
+        data[32767::32768] += 1e4  # (the vectors at the block boundaries weigh visibly)
+        arg = data if axis in (-1, 1) else np.ascontiguousarray(data.T)
+        probe = nprng.randn(4, D)
+        whole, pieces = post.Standardize(), post.Standardize()
+        whole.accumulate(arg, axis=axis)
+        for lo in range(0, nvec, 9001):
+            pieces.accumulate(data[lo:lo + 9001], axis=-1)
+        mean = data.mean(0)
+        var = (data ** 2).mean(0) - mean ** 2
+        want = (probe - mean) / np.sqrt(var)
+        run.evaluations += 1
+        for label, inst in (("one call", whole), ("pieces", pieces)):
+            got = inst.apply(probe, axis=-1)
+            if not np.allclose(got, want, rtol=1e-7, atol=1e-9):
+                run.violation({"kind": "apply_differs_from_statistics_given", "n_vectors": nvec, "num_coeffs": D, "what": "many vectors accumulated in " + label,
+                               "max_abs_error": float(np.max(np.abs(got - want)))})
     # in_place produces the same values
     for dt in (np.float64, np.float32):
         x = nprng.randn(6, 3).astype(dt)
